@@ -5,6 +5,7 @@ from __future__ import annotations
 from vflib import gen, driver, hist, twin
 from vflib.driver import Monitor, opname
 from vflib.ref import payout
+from vflib.ref import handrank as hr
 
 PROP = 'C12'
 RULE = (
@@ -40,12 +41,21 @@ REQUIRED = ('showdowns', 'auto_mucks', 'auto_kills', 'twin_runs_compared',
             'allin_showdowns',
             'observer_query_points',
             'trees_completed', 'explored_nodes',
-            'forks')
+            'forks',
+            'final_showdowns_judged', 'out_of_turn_shows_in_twin')
 
 CUSTOMS = ('holdem8', 'plo8', 'greek', 'courchevel', 'draw5', 'badugi1',
            'stud5', 'razzdraw', 'random')
 SHOW = 'HOLE_CARDS_SHOWING_OR_MUCKING'
 KILL = 'HAND_KILLING'
+
+
+def strength_of(ht, hole, board):
+    """Strength from the independent evaluator of C04/C05 (falls back to
+    the engine's for hand types the reference does not know)."""
+    if ht.__name__ in hr.CLASSES:
+        return hr.best_strength(ht.__name__, [c for c in hole if c], board)
+    return ht.from_game_or_none(hole, board)
 
 
 class ShowdownMonitor(Monitor):
@@ -85,6 +95,9 @@ class ShowdownMonitor(Monitor):
                 self.last_hole[i] = list(h)
 
     def on_end(self, ctx, a):
+        if ctx.cfg.get('c12_manual'):
+            ctx.tag('manual-class')
+            return      # judged by the final-showdown rule only
         if a.status or 'op_exc' in ctx.data or self.at_showdown is None:
             return
         live0 = self.at_showdown[0]
@@ -117,7 +130,7 @@ class ShowdownMonitor(Monitor):
                     board = tuple(a.get_board_cards(b))
                     W = {}
                     for t, ht in enumerate(a.hand_types):
-                        hands = {i: ht.from_game_or_none(hole0[i], board)
+                        hands = {i: strength_of(ht, hole0[i], board)
                                  for i in elig}
                         known = [h for h in hands.values() if h is not None]
                         if known:
@@ -146,7 +159,7 @@ class ShowdownMonitor(Monitor):
             for b in range(nb):
                 board = tuple(a.get_board_cards(b))
                 for t, ht in enumerate(a.hand_types):
-                    hands = {i: ht.from_game_or_none(hole0[i], board)
+                    hands = {i: strength_of(ht, hole0[i], board)
                              for i in elig}
                     known = [h for h in hands.values() if h is not None]
                     if not known:
@@ -174,12 +187,18 @@ class ShowdownMonitor(Monitor):
             t = twin.fresh_state(cfg, autos=[gen.Automation[x]
                                              for x in autos])
             tournament = cfg['mode'] == 'TOURNAMENT'
+            import random as _random
+            order_rng = _random.Random(cfg['seed'] ^ 0x0dd)
 
             def drain():
                 guard = 0
                 while t.can_show_or_muck_hole_cards() and guard < 50:
                     guard += 1
                     i = t.showdown_index
+                    if order_rng.random() < 0.5:
+                        # any player still to show may do so out of turn
+                        i = order_rng.choice(list(t.showdown_indices))
+                        ctx.counters['out_of_turn_shows_in_twin'] += 1
                     if tournament and len(t.hole_cards[i]) > 1:
                         part = tuple(t.hole_cards[i][:1])
                         ctx.counters['tournament_partial_show_probes'] += 1
@@ -196,14 +215,14 @@ class ShowdownMonitor(Monitor):
                                         f'showdown')
                     if tournament and t.all_in_status:
                         held = len(t.hole_cards[i])
-                        op = t.show_or_muck_hole_cards()
+                        op = t.show_or_muck_hole_cards(None, i)
                         if len(op.hole_cards) != held or any(
                                 not c for c in op.hole_cards):
                             ctx.violate(f'tournament all-in: default show '
                                         f'of player {i} showed '
                                         f'{op.hole_cards}')
                     else:
-                        t.show_or_muck_hole_cards(True)
+                        t.show_or_muck_hole_cards(True, i)
             drain()
             for name, args, *_ in ctx.script:
                 if name in ('show_or_muck_hole_cards', '__fork__'):
@@ -226,7 +245,7 @@ class ShowdownMonitor(Monitor):
 
 
 def make_monitors():
-    return [driver.Observer(), ShowdownMonitor()]
+    return [driver.Observer(), driver.FinalShowdownRule(), ShowdownMonitor()]
 
 
 def gen_kwargs(rng):
@@ -240,6 +259,13 @@ def gen_kwargs(rng):
 
 
 def cfg_filter(cfg, rng):
+    if rng.random() < 0.12:
+        # manual class: players table part of their hand themselves (cash
+        # game); judged by the final-showdown rule
+        cfg['c12_manual'] = True
+        cfg['mode'] = 'CASH_GAME'
+        cfg['autos'] = [a for a in cfg['autos'] if a != SHOW]
+        return cfg
     for a in (SHOW, KILL):
         if a not in cfg['autos']:
             cfg['autos'].append(a)
@@ -247,6 +273,10 @@ def cfg_filter(cfg, rng):
 
 
 def pol_tweak(pol, cfg, rng):
+    if cfg.get('c12_manual'):
+        pol['partial_show'] = True
+        pol['empty_show'] = True
+        pol['policy'] = rng.choice(['passive', 'allin', 'allin'])
     if rng.random() < 0.25:
         # rigged deals: made-hand boards and hole cards from their
         # neighbourhood (playing the board, counterfeits, exact ties)
